@@ -124,14 +124,15 @@ func c02Barrier(c *fw.Ctx, label string, pub *kit.Client, subs []*kit.Client, to
 	return true
 }
 
-func c02Stream(c *fw.Ctx, label string, n *kit.Node, nPub, nSub, perPub int, seedIdx int) bool {
+func c02Stream(c *fw.Ctx, label string, n *kit.Node, nPub, nSub, perPub int, seedIdx int, more ...*kit.Node) bool {
+	all := append([]*kit.Node{n}, more...) // subscriber i and publisher p are placed on node i (p) mod len(all)
 	rg := c.SubRng("c02/"+label, seedIdx)
 	topicBase := "c02/" + label
 	subs := []*kit.Client{}
 	subQos := []int{}
 	for i := 0; i < nSub; i++ {
 		q := i % 3
-		cc, err := n.MustConnect(kit.ConnectOpts{ClientID: fmt.Sprintf("%s-sub%d", label, i), KeepAlive: 600, Clean: true})
+		cc, err := all[i%len(all)].MustConnect(kit.ConnectOpts{ClientID: fmt.Sprintf("%s-sub%d", label, i), KeepAlive: 600, Clean: true})
 		if err != nil {
 			c.Inconclusive(label + ": subscriber connect: " + err.Error())
 			return false
@@ -150,13 +151,16 @@ func c02Stream(c *fw.Ctx, label string, n *kit.Node, nPub, nSub, perPub int, see
 	pubs := []*kit.Client{}
 	failed := false
 	for p := 0; p < nPub; p++ {
-		pc, err := n.MustConnect(kit.ConnectOpts{ClientID: fmt.Sprintf("%s-pub%d", label, p), KeepAlive: 600, Clean: true})
+		pc, err := all[(p+1)%len(all)].MustConnect(kit.ConnectOpts{ClientID: fmt.Sprintf("%s-pub%d", label, p), KeepAlive: 600, Clean: true})
 		if err != nil {
 			c.Inconclusive(label + ": publisher connect: " + err.Error())
 			return false
 		}
 		defer pc.Close()
 		pubs = append(pubs, pc)
+	}
+	if len(all) > 1 {
+		n.C.Quiesce() // gossip barrier: every node knows every subscription
 	}
 	// the very first publish of the scenario is sent alone so that it is the first log entry
 	sizes := func(i int) int {
@@ -222,7 +226,7 @@ func c02Stream(c *fw.Ctx, label string, n *kit.Node, nPub, nSub, perPub int, see
 }
 
 func runC02(c *fw.Ctx) {
-	c.Rule = "publish streams against a broker node with the real on-disk commit log: P in {1,3} concurrent publishers x S in {1,3} subscribers (subscription QoS 0/1/2, full acknowledgement handshakes), publish QoS 0/1/2 mix, payloads 0 B - 1 MiB with a content hash in the tag; starting from an empty log (the first message is offset 0), long enough to cross segment rolls (500, 1000, ...) and the truncation at offset 2000 (quick 2200 messages; thorough 6000), and from a pre-filled log with a stored consumer offset after node restarts on the same directory; plus the scenario in which a self-subscribed QoS 2 publisher's inbound exchange and an outbound delivery to it use the same packet identifier, a QoS 2 subscriber that withholds PUBCOMP so that deliveries overlap, and retained publishes with an empty payload. Oracle: after a sentinel barrier every acknowledged QoS>=1 publish was received >=1 times by every subscriber that stayed connected, topic and payload intact. distinct = scenario (shape, restart position); non-trivial = >1 message"
+	c.Rule = "(also: PUBRELs arriving after the inbound QoS 2 handshake timed out - a PUBCOMP obliges delivery; two nodes with the publisher node's own log failing for a while as forwarding works - what is acknowledged must reach the local subscriber) publish streams against a broker node with the real on-disk commit log: P in {1,3} concurrent publishers x S in {1,3} subscribers (subscription QoS 0/1/2, full acknowledgement handshakes), publish QoS 0/1/2 mix, payloads 0 B - 1 MiB with a content hash in the tag; starting from an empty log (the first message is offset 0), long enough to cross segment rolls (500, 1000, ...) and the truncation at offset 2000 (quick 2200 messages; thorough 6000), and from a pre-filled log with a stored consumer offset after node restarts on the same directory; plus the scenario in which a self-subscribed QoS 2 publisher's inbound exchange and an outbound delivery to it use the same packet identifier, a QoS 2 subscriber that withholds PUBCOMP so that deliveries overlap, and retained publishes with an empty payload. Oracle: after a sentinel barrier every acknowledged QoS>=1 publish was received >=1 times by every subscriber that stayed connected, topic and payload intact. distinct = scenario (shape, restart position); non-trivial = >1 message"
 	c.Assume("QoS 0 publishes are not acknowledged and therefore not required; duplicates are allowed")
 	c.Assume("delivery barrier: a publisher that waits for each PUBACK appends in order; log consumer and writer are FIFO, so a sentinel published after everything else is written last")
 
@@ -288,6 +292,20 @@ func runC02(c *fw.Ctx) {
 	// the forwarding to another node works
 	c02LatePubRel(c, base)
 	c02LocalLogFault(c, base)
+	// ---- H: the same kind of stream over two nodes (publishers and subscribers on both; every message
+	// goes through both logs, which cross their segment rolls at different moments)
+	{
+		cl := kit.NewCluster(base + "/h")
+		n1, err1 := cl.AddNode(kit.NodeOpts{ID: 1})
+		n2, err2 := cl.AddNode(kit.NodeOpts{ID: 2})
+		if err1 != nil || err2 != nil {
+			c.Inconclusive("cannot start nodes")
+		} else {
+			fw.LogCase("C02 two-node stream")
+			c02Stream(c, "twonodes2x4", n1, 2, 4, c.Pick(330, 1300), 7, n2)
+		}
+		cl.Close()
+	}
 	c.Floor("acked_deliveries_checked", 500)
 }
 
